@@ -121,7 +121,7 @@ theorem readToken_sim (o : VOpts) (s : SState) (ws : WState) (h : Sim s ws) :
     cases r with
     | err off e =>
       simp only
-      have hw : TokenLoop.readToken o ws.st ws.r = .err off e := by rw [h4, hr]; exact g0.symm
+      have hw : TokenLoop.readToken o ws.st ws.r = .err off e := by rw [h4, hr, readToken_eq]; exact g0.symm
       refine ⟨?_, ⟨c4, c5, c3, ?_, ?_, ?_⟩, g2⟩
       · simp only [wholeRead, hw]; rw [hoff]
       · simp only [wholeRead, hw]; exact h4
@@ -130,7 +130,7 @@ theorem readToken_sim (o : VOpts) (s : SState) (ws : WState) (h : Sim s ws) :
     | tok n st' =>
       simp only
       obtain ⟨t1, t2, t3, t4⟩ := g4 n st' rfl
-      have hw : TokenLoop.readToken o ws.st ws.r = .tok n st' := by rw [h4, hr]; exact g0.symm
+      have hw : TokenLoop.readToken o ws.st ws.r = .tok n st' := by rw [h4, hr, readToken_eq]; exact g0.symm
       have hbuf : w1.buf.length = w1.prevEnd + u'.length := by
         have := congrArg List.length c1
         simp only [Window.unread, List.length_drop] at this
